@@ -22,6 +22,10 @@ func derivesFrom(v ssa.Value, pred func(ssa.Value) bool, d int) bool {
 	if derivStop != nil && derivStop(v) {
 		return false
 	}
+	// field of a local parameter struct: exactly the value stored into that field
+	if f := world.Forward(v); f != v {
+		return derivesFrom(f, pred, d+1)
+	}
 	switch x := v.(type) {
 	case *ssa.Phi:
 		for _, e := range x.Edges {
